@@ -61,6 +61,10 @@ class _TextCueParser:
     self.ruby_rbc: typing.Optional[model.Rbc] = None
     self.ruby_rtc: typing.Optional[model.Rtc] = None
 
+    # spans opened by time stamp tags and the time stamp currently in effect
+    self.ts_spans: typing.List[model.Span] = []
+    self.current_ts: typing.Optional[str] = None
+
   def handle_token(self, token: Token) -> None:
     if isinstance(token, StartTagToken):
       self._handle_starttag(token)
@@ -83,12 +87,21 @@ class _TextCueParser:
       self.parent.push_child(span)
 
   def _handle_ts(self, token: TimestampTagToken):
+    self.current_ts = token.timestamp
+    self._open_ts_span()
+
+  def _is_ts_span(self, element: model.ContentElement) -> bool:
+    return any(element is ts_span for ts_span in self.ts_spans)
+
+  def _open_ts_span(self):
+    """Opens a span that begins at the time stamp currently in effect"""
 
     span = self._make_span(self.parent)
     self._push_span(span)
     self.parent = span
+    self.ts_spans.append(span)
 
-    ts = vtt_timestamp_to_secs(token.timestamp)
+    ts = vtt_timestamp_to_secs(self.current_ts)
 
     # absolute begin time of the parent: begin times are relative to the parent element
 
@@ -101,7 +114,7 @@ class _TextCueParser:
     if ts is not None and parent_begin is not None and parent_begin <= ts:
       span.set_begin(ts - parent_begin)
     else:
-      LOGGER.warning("Invalid timestamp tag %s", token.timestamp)
+      LOGGER.warning("Invalid timestamp tag %s", self.current_ts)
 
   def _handle_starttag(self, token: StartTagToken):
 
@@ -180,9 +193,22 @@ class _TextCueParser:
 
   def _handle_endtag(self, _token: EndTagToken):
 
-    if self.parent is self.paragraph:
+    # an end tag closes the innermost tag, including the spans opened by the time stamps that it contains
+
+    tag_element = self.parent
+
+    while self._is_ts_span(tag_element):
+      tag_element = tag_element.parent()
+      if isinstance(tag_element, model.Rb):
+        tag_element = tag_element.parent().parent()
+
+    if tag_element is self.paragraph:
       LOGGER.warning("End tag without start tag at line %s", self.line_num)
       return
+
+    is_ts_in_effect = tag_element is not self.parent
+
+    self.parent = tag_element
 
     if isinstance(self.parent, model.Ruby):
       self.ruby_rbc = None
@@ -196,6 +222,10 @@ class _TextCueParser:
     if isinstance(self.parent, model.Rb):
       # a tag within the base text of a ruby container was closed: return to the ruby container
       self.parent = self.parent.parent().parent()
+
+    if is_ts_in_effect:
+      # the time stamp applies to the text that follows the tag too
+      self._open_ts_span()
 
   def _handle_string(self, token: StringToken):
     lines = token.value.split("\n")
